@@ -138,6 +138,19 @@ def run(tier, rng, C):
         inv.classes[('c.yml',)] = G.doc([], [], M(('x', S('v')), ('deep', S('${' * d + 'x' + '}' * d))))
         inv.nodes[('n.yml',)] = G.doc(['c'], [], M())
         add(inv, G.op_node('n'), show='reference nested %d deep: parameters.deep = "${"*%d + "x" + "}"*%d' % (d, d, d), nomodel=False, pre='d')
+    # long loop-free reference chains, every hop passing through a container or through text: the
+    # depth limit must stop them (an error), whatever their length
+    for d, style in [(70, 'member'), (400, 'member'), (5000, 'member'), (300, 'list'), (300, 'embed'), (3000, 'mixed')]:
+        inv = G.Inv()
+        ps = [(S('start'), S('${a0}'))]
+        for i in range(d):
+            st = style if style != 'mixed' else ['member', 'list', 'embed'][i % 3]
+            nxt = '${a%d}' % (i + 1)
+            ps.append((S('a%d' % i), M(('v', S(nxt))) if st == 'member' else (L(S(nxt)) if st == 'list' else S('x' + nxt))))
+        ps.append((S('a%d' % d), S('end')))
+        inv.classes[('c.yml',)] = G.doc([], [], ('m', ps))
+        inv.nodes[('n.yml',)] = G.doc(['c'], [], M())
+        add(inv, G.op_node('n'), show='loop-free chain of %d references through %s values' % (d, style), nomodel=False, pre='h')
     for d in [10, 100, 2000]:
         inv = G.Inv()
         v = I(1)
